@@ -22,7 +22,14 @@ import (
 	"strings"
 )
 
-func init() { register("concat", extractConcat) }
+func init() {
+	register("concat", extractConcat)
+	registerFallback("concat", "ConcatTable.v", "(* Gen/ConcatTable.v — translator tie UNAVAILABLE: tools/go2v (extractor \"concat\") did not recognise the\n"+
+		"   shape of internal/concat.go / schema/message.go; the model's own tables are re-exported. *)\n"+
+		"From Eino Require Import Base.Util Model.ConcatTable.\n\n"+
+		"Definition table : list (string * cfun) := Model.ConcatTable.table.\n\n"+
+		"Definition schema_registrations : list (string * string) := Model.ConcatTable.schema_registrations.\n")
+}
 
 func coqStr(s string) string { return `"` + strings.ReplaceAll(s, `"`, `""`) + `"%string` }
 
